@@ -30,7 +30,7 @@ from .core import BadSpec
 # ---------------------------------------------------------------------------
 _small = st.integers(0, 30)
 ORD = ["nop", "nop2", "nop3", "xor", "push", "pop", "mark", "lea", "load", "cmpm"]
-TERM = ["jmp", "jmp32", "je", "je", "call", "call", "call", "ijmp", "icall", "ret", "ret"]
+TERM = ["jmp", "jmp32", "je", "je", "call", "call", "call", "ijmp", "icall", "ret", "ret", "icallm", "ijmpm"]
 
 
 def _ord_names(isa):
@@ -509,7 +509,7 @@ class Case:
                 pool = list(own_labels) + self.code_labels + self.externs
             else:
                 pool = list(own_labels) + self.all_labels + self.externs
-                if tpl.kind == "ord" and self.isa != "arm64":
+                if tpl.kind == "ord":
                     u.addend = ri.get("add", 0) or 0
             u.sym = pool[ri.get("sym", 0) % len(pool)]
             u.field = tpl.symfield
